@@ -424,11 +424,73 @@ class ChfObs:
         return {k: v + r.get(k, 0) for k, v in b.items()}
 
 
+def _race_scan(res, pid, ops, gmp, what="requests of one subscriber in flight together"):
+    """what the Go run time said about the last run of the conc stream: race-detector reports, fatal errors"""
+    se = core.LAST_STDERR.get("conc", "")
+    if "DATA RACE" in se:
+        i = se.index("DATA RACE")
+        res.violation("oracle", "%s: the Go race detector reported a data race (GOMAXPROCS=%d; %s)" % (pid, gmp, what),
+                      ops[:400] + ["# race report:"] + ["# " + l for l in se[max(0, i - 20):i + 3500].split("\n")])
+    if "fatal error" in se or "concurrent map" in se:
+        i = se.find("fatal error")
+        res.violation("oracle", "%s: the process crashed (GOMAXPROCS=%d; %s): %s" % (pid, gmp, what, se[i:i + 200].replace("\n", " ")),
+                      ops[:400] + ["# " + l for l in se[max(0, i):i + 2500].split("\n")])
+
+
+def _hammer_check(res, ops, impl, pid):
+    """`conc hammer` lines: loops of requests by several goroutines on one subscriber"""
+    for op, im in zip(ops, impl):
+        t = op.split(" ")
+        if len(t) < 5 or t[1] != "hammer":
+            continue
+        res.evaluations += 1
+        res.dist["hammer:" + t[2]] += 1
+        d = dict(x.split("=", 1) for x in im.split(" ") if "=" in x)
+        hx = lambda v: bytes.fromhex(v.split(":", 1)[1]).decode(errors="replace") if ":" in v else ""
+        if im in ("crash", "panic") or "done" not in d:
+            res.violation("oracle", "%s: the process crashed while the requests of roles %s were in flight (%s)" % (pid, t[2], im[:60]), [op, "# impl: " + im[:200]])
+            continue
+        if d["done"] != "1":
+            res.violation("oracle", "%s: concurrent requests of one subscriber (roles %s) did not all return within 90 s (deadlock)" % (pid, t[2]), [op, "# impl: " + im])
+            continue
+        ok = True
+        if not d.get("dup", "0").startswith("0"):
+            ok = False
+            res.violation("oracle", "%s: a create returned the reference %s while the session it had been handed out for before was not released "
+                          "(%s times; requests in flight: %s)" % (pid, hx(d["dup"]), d["dup"].split(":")[0], t[2]), [op, "# impl: " + im])
+        if not d.get("bad", "0").startswith("0"):
+            ok = False
+            res.violation("oracle", "%s: %s (%s such answers; requests in flight: %s)" % (pid, hx(d["bad"]), d["bad"].split(":")[0], t[2]), [op, "# impl: " + im])
+        if d.get("left", "0") != "0":
+            ok = False
+            res.violation("oracle", "%s: after every session had been released, %s session reference(s) are still in the subscriber's session map" % (pid, d["left"]),
+                          [op, "# impl: " + im])
+        if ok:
+            res.traces_validated += 1
+            res.nontrivial.add(op)
+
+
+def _hammer_phase(ctx, res, pid, mode, replay_ops, race=True):
+    """the hammer lines of one family (conc stream, generator mode `mode`), on the race-detector build when there is one"""
+    if replay_ops is not None:
+        ops = [o for o in replay_ops if o.startswith("conc hammer ")]
+        if not ops:
+            return
+    else:
+        ops = core.harness_gen(ctx.harness, "conc", ctx.seed, 0, ctx.tier, ("-mode", mode))
+    h = (getattr(ctx, "harness_race", None) if race else None) or ctx.harness
+    res.extra["race_detector"] = bool(race and getattr(ctx, "harness_race", None))
+    for gmp in (4, 16):
+        impl = core.harness_run(h, "conc", ops, env_extra={"GOMAXPROCS": str(gmp), "GORACE": "halt_on_error=0"})
+        _race_scan(res, pid, [o for o in ops if " hammer " in o], gmp)
+        _hammer_check(res, ops, impl, pid)
+
+
 def _conc_phase(ctx, res, pid, mode, replay_ops, nq, nt):
     """batches of concurrent requests (conc stream, generator mode `mode`) judged by _conc_check for property pid"""
     if replay_ops is not None:
-        ops = [o for o in replay_ops if o.startswith("conc ")]
-        if not ops:
+        ops = [o for o in replay_ops if o.startswith("conc ") and not o.startswith("conc hammer ")]
+        if not [o for o in ops if o.startswith("conc go")]:
             return
     else:
         ops = core.harness_gen(ctx.harness, "conc", ctx.seed, n_for(ctx, nq, nt), ctx.tier, ("-mode", mode))
@@ -437,9 +499,14 @@ def _conc_phase(ctx, res, pid, mode, replay_ops, nq, nt):
         _conc_check(res, ops, impl, gmp, pid)
 
 
-def chf_run(ctx, res, n, replay_ops=None, gen_extra=()):
+def chf_run(ctx, res, n, replay_ops=None, gen_extra=(), also=()):
+    """also: further generator modes of the chf stream, [(mode, n quick, n thorough)], appended to the same run"""
     if replay_ops is not None:
         replay_ops = [o for o in replay_ops if o.startswith("chf ")]
+    elif also:
+        replay_ops = core.corpus_ops(ctx.pid, "chf") + core.harness_gen(ctx.harness, "chf", ctx.seed, n, ctx.tier, gen_extra)
+        for mode, nq, nt in also:
+            replay_ops += core.harness_gen(ctx.harness, "chf", ctx.seed, n_for(ctx, nq, nt), ctx.tier, ("-mode", mode))
     r = ctx.stream("chf", n, ops=replay_ops, extra_gen=gen_extra)
     # correspondence on everything
     for i, (op, im, mo) in enumerate(zip(r.ops, r.impl, r.model)):
@@ -461,7 +528,8 @@ def _chf_history(ops, i):
 
 def explore_c01(ctx, res, replay_ops=None):
     n = n_for(ctx, 600, 6000)
-    r = chf_run(ctx, res, n, replay_ops)
+    # + one-time events between / during / after the sessions of a subscriber, refused creates (mode events)
+    r = chf_run(ctx, res, n, replay_ops, also=[("events", 400, 3000)])
     prev = None
     last_reserved = {}
     for i, (op, im, mo) in enumerate(zip(r.ops, r.impl, r.model)):
@@ -534,7 +602,9 @@ def explore_c01(ctx, res, replay_ops=None):
     res.rule = ("histories over the real gin router + processor + rating/account servers (Diameter/TLS, in-memory store): "
                 "1-2 subscribers x 2 rating groups x 1-2 sessions per scenario, unit costs 1,2,3,7,1000, balances 0..100000, "
                 "requested 0..250, used around the last grant (incl. over-reporting), FINAL and other triggers, releases, "
-                "external credits + recharge notifications; judged: every operation inside the quantifier (opOKb, evaluated "
+                "external credits + recharge notifications; plus (mode events) one-time events with and without usage before / between / during / after the "
+                "sessions of a subscriber - incl. after a release without FINAL that leaves a reservation behind -, creates refused by OpenCDR; "
+                "judged: every operation inside the quantifier (opOKb, evaluated "
                 "by the Lean driver); non-trivial = operation that moves money; distinct = distinct operation lines")
 
 
@@ -565,7 +635,7 @@ def _parse_req(tokens):
         for _ in range(nc):
             conts.append(tuple(int(next(it)) for _ in range(6)))
         usages.append(dict(rg=rg, req=None if rq == "~" else int(rq), conts=conts))
-    return dict(supi=supi, nf=nf, seq=seq, trigs=trigs, usages=usages)
+    return dict(supi=supi, nf=nf, seq=seq, trigs=trigs, usages=usages, one=one)
 
 
 def explore_c06(ctx, res, replay_ops=None):
@@ -689,24 +759,34 @@ PROPS["C06"] = dict(lean=["ChfVerif.Props.C06"], explore=explore_c06,
 # ------------------------------------------------------------------ C12 (API contract)
 
 def _state_part(line):
-    """everything of an observation that describes state (balances + per-subscriber dumps)"""
+    """everything of an observation that describes state (balances + per-subscriber dumps); a subscriber context
+    that holds nothing (no reservation, no session, no record - what a create refused by OpenCDR leaves behind for a
+    subscriber the CHF had not seen) is no account, reservation or record change and is left out"""
     i = line.find(" bal=")
-    return line[i:] if i >= 0 else line
+    st = line[i:] if i >= 0 else line
+    m = re.match(r"^(.*?) nue=\d+ (.*)$", st)
+    if not m:
+        return st
+    ues = re.sub(r"(^| )[0-9a-f]+ money=- cdr=- rec=-(?= |$)", "", m.group(2)).strip()
+    return m.group(1) + " ues=" + (ues if ues not in ("", "-") else "-")
 
 
 def explore_c12(ctx, res, replay_ops=None):
     n = n_for(ctx, 700, 6000)
-    r = chf_run(ctx, res, n, replay_ops, gen_extra=("-mode", "api"))
+    # + one-time events and creates refused by OpenCDR (mode events); consumer names / references with characters
+    #   that are escaped in a URI, and references whose percent-decoding would be a live reference (mode escapes)
+    r = chf_run(ctx, res, n, replay_ops, gen_extra=("-mode", "api"), also=[("events", 300, 2500), ("escapes", 300, 2500)])
     prev_state = None
     known = {}        # supi -> set(live sids) as the implementation acknowledged them
     uri = {}
+    refused_only = set()
     for i, (op, im, mo) in enumerate(zip(r.ops, r.impl, r.model)):
         t = op.split()
         kind = t[1]
         if kind == "slowdb":
             continue
         if kind == "reset":
-            prev_state, known, uri = None, {}, {}
+            prev_state, known, uri, refused_only = None, {}, {}, set()
             continue
         if kind in ("acct", "credit", "end"):
             if kind != "end" and prev_state is not None:
@@ -730,20 +810,33 @@ def explore_c12(ctx, res, replay_ops=None):
             res.violation("oracle", "C12: answered %d" % st, hist())
         if kind == "create":
             rq = _parse_req(t[2:])
+            one_time = int(rq["one"]) & 1 == 1
             if st == 201:
                 loc = o.f.get("loc")
                 sids = set(known.get(rq["supi"], set()))
                 # the Location reference must be a key of the subscriber's session map
                 cdr = o.ues.get(rq["supi"], {}).get("cdr", "-")
                 keys = [] if cdr == "-" else [x.split(">")[0] for x in cdr.split(";")]
-                if loc in (None, "?") or loc not in keys:
+                if one_time:
+                    # an event opens no session: the reference part of its Location is empty and designates nothing
+                    res.dist["one-time-event:201"] += 1
+                    if loc != "-":
+                        res.violation("oracle", "C12: a one-time event was answered with the session reference %s" % loc, hist())
+                elif loc in (None, "?", "-") or loc not in keys:
                     res.violation("oracle", "C12: create answered 201 but the Location reference %s does not designate a session" % loc, hist())
                 if o.f.get("seq") != rq["seq"] or o.f.get("ts") != "1":
                     res.violation("oracle", "C12: create response does not echo the sequence number / carries no timestamp", hist())
-                known.setdefault(rq["supi"], set()).add(loc)
+                known.setdefault(rq["supi"], set())
+                if not one_time:
+                    known[rq["supi"]].add(loc)
                 uri[rq["supi"]] = True
             elif st // 100 == 2:
                 res.violation("oracle", "C12: create answered %d, expected 201" % st, hist())
+            elif int(rq["one"]) & 6:
+                # refused by the record validation only: whether the CHF "knows" the subscriber afterwards is not
+                # for this oracle to say (recharges for it are not judged until a create is accepted)
+                if rq["supi"] not in known:
+                    refused_only.add(rq["supi"])
         elif kind in ("update", "release"):
             sid = t[2]
             rq = _parse_req(t[3:])
@@ -763,7 +856,9 @@ def explore_c12(ctx, res, replay_ops=None):
             parts = info.split("_")
             ok_form = len(parts) == 2 and re.fullmatch(r"[+-]?\d+", parts[1] or "x") and -2**31 <= int(parts[1]) < 2**31
             sup_hex = parts[0].encode().hex() if parts[0] else "-"
-            if ok_form and sup_hex in known:
+            if ok_form and sup_hex in refused_only and sup_hex not in known:
+                res.outside_domain["recharge-after-refused-create-only"] += 1
+            elif ok_form and sup_hex in known:
                 exp = "%s:%d" % (("/n/" + parts[0]).encode().hex(), int(parts[1]))
                 if st != 204 or o.f.get("notif") != exp:
                     res.violation("oracle", "C12: recharge of a known subscriber answered %d notif=%s (expected 204, %s)" % (
@@ -777,17 +872,24 @@ def explore_c12(ctx, res, replay_ops=None):
         prev_state = state
     # a reference can also become stale while the request naming it waits behind the release of its session
     _conc_phase(ctx, res, "C12", "stale", replay_ops, 30, 300)
+    # requests naming unknown references in loops next to creates, updates and releases of the same subscriber (race-detector build):
+    # each is answered 4xx, and the look-up itself must not disturb the requests it runs next to
+    _hammer_phase(ctx, res, "C12", "hammer-lookup", replay_ops)
     res.rule = ("chf histories in 'api' mode: 25% of updates/releases name an unknown, mistyped, foreign or stale (released) "
                 "reference or an unknown subscriber; recharges with well-formed, malformed and unknown path parameters; "
                 "oracle on the implementation's trace: status/Location/echo/timestamp per request, byte-identical state "
-                "dump across every 4xx, exactly one notification per accepted recharge; non-trivial = rejected request or "
+                "dump across every 4xx (empty subscriber contexts apart), exactly one notification per accepted recharge; plus one-time events and creates "
+                "refused by OpenCDR (mode events), consumer names with characters that are escaped in a URI and references whose percent-decoding "
+                "would be a live reference (mode escapes); non-trivial = rejected request or "
                 "accepted recharge; plus batches of 3-5 updates and the release of one session in flight together against a slow account "
-                "store: some serial order replayed through the Lean model must give every response (an update behind the release: 404) and the final state")
+                "store (half of the batches repeat the release): some serial order replayed through the Lean model must give every response (an update or "
+                "a second release behind the release: 404) and the final state; plus loops of requests naming unknown references next to creates, updates "
+                "and releases of the same subscriber on the race-detector build")
 
 
 import re  # noqa: E402
 
-PROPS["C12"] = dict(lean=["ChfVerif.Props.C12"], explore=explore_c12,
+PROPS["C12"] = dict(lean=["ChfVerif.Props.C12"], explore=explore_c12, race=True,   # gen: see below gen_table
                     trusted=["gin routing/JSON rendering, openapi client (h2c notification) are modelled; the notification sink is part of the harness"])
 
 
@@ -795,9 +897,12 @@ PROPS["C12"] = dict(lean=["ChfVerif.Props.C12"], explore=explore_c12,
 
 def explore_c10(ctx, res, replay_ops=None):
     n = n_for(ctx, 700, 6000)
-    r = chf_run(ctx, res, n, replay_ops, gen_extra=("-mode", "names"))
+    # + one-time events (they return no reference) and creates refused by OpenCDR between accepted ones (mode events);
+    #   names with characters that are escaped in a URI (mode escapes)
+    r = chf_run(ctx, res, n, replay_ops, gen_extra=("-mode", "names"), also=[("events", 300, 2500), ("escapes", 300, 2500)])
     live = {}       # reference -> (supi, chargingId) of the create that returned it
     lsn_of = {}
+    prev_recs = {}  # supi -> records as dumped after the previous operation
     for i, (op, im, mo) in enumerate(zip(r.ops, r.impl, r.model)):
         t = op.split()
         kind = t[1]
@@ -805,6 +910,7 @@ def explore_c10(ctx, res, replay_ops=None):
             continue
         if kind == "reset":
             live = {}
+            prev_recs = {}
             continue
         if kind not in ("create", "update", "release"):
             continue
@@ -814,7 +920,24 @@ def explore_c10(ctx, res, replay_ops=None):
             continue
         res.evaluations += 1
         hist = lambda: _chf_history(r.ops, i) + ["# impl: " + strip_annot(im)[:1500]]
-        if kind == "create" and o.status() == 201:
+        cur_recs = {supi: ([] if u["rec"] == "-" else u["rec"].split("|")) for supi, u in o.ues.items()}
+        if kind in ("update", "release"):
+            # "... designates that session and only it": whatever the answer, a request addressed to a reference leaves
+            # the records of every OTHER session (of every subscriber) exactly as they were
+            for supi, recs in cur_recs.items():
+                before = prev_recs.get(supi, [])
+                for k, rec in enumerate(recs):
+                    if rec.startswith("sid=" + t[2] + ","):
+                        continue
+                    if k >= len(before) or before[k] != rec:
+                        res.violation("oracle", "C10: the %s addressed to reference %s changed a record of another session (%s)" % (
+                            kind, t[2], rec.split(",")[0]), hist() + ["# record before: " + (before[k] if k < len(before) else "(none)")[:400],
+                                                                      "# record after:  " + rec[:400]])
+                        break
+        prev_recs = cur_recs
+        if kind == "create" and o.status() == 201 and o.f.get("loc") == "-":
+            res.dist["one-time-event(no reference)"] += 1
+        elif kind == "create" and o.status() == 201:
             rq = _parse_req(t[2:])
             loc = o.f.get("loc")
             res.dist["create"] += 1
@@ -845,14 +968,20 @@ def explore_c10(ctx, res, replay_ops=None):
     # first contact: several creates for a SUPI the CHF has never seen, in flight together; every acknowledged reference
     # must then designate its session (update 200, release 204)
     _conc_phase(ctx, res, "C10", "newsupi", replay_ops, 40, 400)
+    # creates that OpenCDR refuses (of another subscriber, of the same one) in loops next to pairs of sessions opened through the
+    # same consumer: every reference handed out must differ from those of the sessions not yet released, and designate its session
+    _hammer_phase(ctx, res, "C10", "hammer-refs", replay_ops, race=False)
     res.rule = ("chf histories in 'names' mode: SUPIs that are prefixes of one another (imsi-1, imsi-12, imsi-, imsi-1-), "
                 "consumer names ending in digits / empty / containing '-' (a1, a, '', 10, -1, smf-0), 2-4 sessions per subscriber, "
                 "interleaved updates and releases; oracle: every returned reference differs from all live ones, and usage sent "
                 "to a live reference lands in a record carrying that reference; plus 4-8 creates of one never-seen SUPI in flight together, "
-                "every acknowledged reference then updated and released; non-trivial/distinct = returned references")
+                "every acknowledged reference then updated and released; whatever its answer, a request addressed to a reference leaves the records of all "
+                "other sessions as they were; one-time events (no reference), creates refused by OpenCDR, percent-escaped names; loops of refused creates "
+                "(other / same subscriber) next to pairs of sessions via one consumer: no reference of an unreleased session handed out again; "
+                "non-trivial/distinct = returned references")
 
 
-PROPS["C10"] = dict(lean=["ChfVerif.Props.C10"], explore=explore_c10,
+PROPS["C10"] = dict(lean=["ChfVerif.Props.C10"], explore=explore_c10,   # gen: see below gen_table
                     trusted=["concurrency (atomic counter, LoadOrStore) is outside this sequential model — see C09"])
 
 
@@ -872,7 +1001,8 @@ def _rec_usage(rec):
 
 def explore_c02(ctx, res, replay_ops=None):
     n = n_for(ctx, 700, 6000)
-    r = chf_run(ctx, res, n, replay_ops)
+    # + one-time events with and without usage around the subscriber's sessions (mode events)
+    r = chf_run(ctx, res, n, replay_ops, also=[("events", 300, 2500)])
     expect = {}     # (supi, sid) -> [container "lsn/total/up/down/ssu" …] in report order
     ident = {}      # (supi, sid) -> identity prefix of the record at creation
     released = set()
@@ -900,6 +1030,10 @@ def explore_c02(ctx, res, replay_ops=None):
                 rq = _parse_req(t[3:])
                 sid = t[2]
             key = (rq["supi"], sid)
+            if kind == "create" and sid == "-":
+                # a one-time event has no reference: its record is known by its place in the subscriber's records
+                nrec = o.ues.get(rq["supi"], {}).get("rec", "-")
+                key = (rq["supi"], "-#%d" % (len(nrec.split("|")) - 1))
             conts = ["%d/%d/%d/%d/%d" % (c[5], c[1], c[2], c[3], c[4]) for u in rq["usages"] for c in u["conts"]]
             expect.setdefault(key, []).extend(conts)
             if conts:
@@ -911,9 +1045,9 @@ def explore_c02(ctx, res, replay_ops=None):
         for supi, u in o.ues.items():
             if u["rec"] == "-":
                 continue
-            for rec in u["rec"].split("|"):
+            for ridx, rec in enumerate(u["rec"].split("|")):
                 f = dict(x.split("=", 1) for x in rec.split(",u=")[0].split(","))
-                k = (supi, f["sid"])
+                k = (supi, f["sid"] if f["sid"] != "-" else "-#%d" % ridx)
                 got.setdefault(k, []).extend(c for (_, _, cs) in _rec_usage(rec) for c in cs)
                 idp = "sub=%s,cid=%s,nf=%s" % (f["sub"], f["cid"], f["nf"])
                 if k in ident and ident[k] != idp:
@@ -921,8 +1055,22 @@ def explore_c02(ctx, res, replay_ops=None):
                 ident.setdefault(k, idp)
                 if f["sub"] != "1." + supi[10:]:
                     res.violation("oracle", "C02: record of %s carries subscriber identity %s" % (supi, f["sub"]), hist())
-                if k in released and rec == u["rec"].split("|")[-1] and f["cause"] != "0":
-                    pass
+        # cause for closing: normal (0) for the record of a session that has just been released, partial record (1) for
+        # the record a partial closure has just cut (online usage reported with a trigger list not ending in FINAL)
+        if o.status() // 100 == 2 and kind in ("update", "release"):
+            mine = [rec for rec in (o.ues.get(rq["supi"], {}).get("rec", "-").split("|")) if rec.startswith("sid=" + sid + ",")]
+            if mine:
+                cause = dict(x.split("=", 1) for x in mine[-1].split(",u=")[0].split(",")).get("cause")
+                online = any(c[0] == 1 for u in rq["usages"] for c in u["conts"])
+                partial = online and rq["trigs"] and rq["trigs"][-1] != "F"
+                if kind == "release":
+                    res.dist["release:cause-checked"] += 1
+                    if cause != "0":
+                        res.violation("oracle", "C02: the record of the released session %s carries cause for record closing %s, not 0 (normal release)" % (sid, cause), hist())
+                elif partial:
+                    res.dist["partial-closure:cause-checked"] += 1
+                    if cause != "1":
+                        res.violation("oracle", "C02: the record cut by a partial closure of session %s carries cause for record closing %s, not 1 (partial record)" % (sid, cause), hist())
         res.traces_validated += 1
         for k, want in expect.items():
             if got.get(k, []) != want:
@@ -1009,7 +1157,8 @@ def explore_c02(ctx, res, replay_ops=None):
                 "carries a unique local sequence number as tracer): after every operation the containers found in the records "
                 "of each session (in Records order) must equal the containers reported for that session so far; plus "
                 "TimeStampToCdr on civil times x zone offsets (-14h..+14h in minutes, incl. +05:30/+05:45/-03:30) read back by "
-                "the Lean TS 32.298 reader; non-trivial = request carrying containers")
+                "the Lean TS 32.298 reader; one-time events around the sessions (mode events); cause for closing 0 on the record of every released session, "
+                "1 on the record cut by a partial closure; non-trivial = request carrying containers")
 
 
 PROPS["C02"] = dict(lean=["ChfVerif.Props.C02"], explore=explore_c02,
@@ -1031,6 +1180,11 @@ def gen_table(which, fname):
             log("Gen/%s regenerated (changed)" % fname)
     g.key = which
     return g
+
+
+# C10 (counter updates) and C12 (session-map look-ups under the mutex) have obligations over the lock-site tables too
+PROPS["C10"]["gen"] = [gen_table("locksites", "LockSites.lean")]
+PROPS["C12"]["gen"] = [gen_table("locksites", "LockSites.lean")]
 
 
 # ------------------------------------------------------------------ C13
@@ -1830,7 +1984,15 @@ def explore_c11(ctx, res, replay_ops=None):
             except ValueError:
                 body = "?"
             res.sample({"kind": kind, "body": body[:160], "answer": im})
-        if st == "hang":
+        if kind == "hist" and (st == "hang" or st[:1] == "5" or "hang" in (fu, fu2) or fu[:1] == "5" or fu2[:1] == "5" or fu != "200" or fu2 != "204"):
+            names = {"c": "valid create", "b": "create refused by OpenCDR", "n": "create without consumer identification", "o": "one-time event", "u": "update",
+                     "x": "update naming an unknown reference", "r": "release", "R": "recharge"}
+            res.violation("oracle", "C11: history [%s] of one subscriber was answered %s (4 s per request); the well-formed create+update / release that followed: %s / %s "
+                          "(hang = not answered within 4 s: the subscriber is blocked)" % (", ".join(names.get(c, c) for c in t[3]), d.get("hist", "?"), fu, fu2),
+                          [op, "# impl: " + im])
+        elif kind == "hist":
+            pass
+        elif st == "hang":
             res.violation("oracle", "C11: the request was not answered within 40 s", [op, "# impl: " + im])
         elif st[:1] == "5":
             res.violation("oracle", "C11: the request was answered %s (handler panic or server error) instead of a 4xx problem description" % st,
@@ -1875,6 +2037,10 @@ def explore_c11(ctx, res, replay_ops=None):
                               sops[start:i + 1] + ["# impl: " + im[:160]])
             else:
                 res.traces_validated += 1
+    # --- "any order of requests" includes requests that overlap: requests naming unknown references in loops next to creates, updates
+    #     and releases of the same subscriber, on the race-detector build (an unsynchronised look-up in the session map is a fatal
+    #     "concurrent map read and map write" that no recovery middleware catches)
+    _hammer_phase(ctx, res, "C11", "hammer-lookup", replay_ops)
     res.rule = ("raw requests through the real router: a full ChargingDataRequest (all optional blocks present) with every single member "
                 "removed / null / {} / emptied, pairs of members removed (all pairs in thorough), random multi-member removals, 21 odd "
                 "subscriber identifiers, 25 MCC/MNC shapes, 13 bodies that are not a request object, 9 session references, 17 recharging "
@@ -1882,10 +2048,13 @@ def explore_c11(ctx, res, replay_ops=None):
                 "same subscriber under a 4 s deadline. Oracle: status 2xx/3xx/4xx (never 5xx, never a hang), follow-ups answered in time "
                 "and not 5xx; recharge notifications to a consumer that answers after 5 s / sends an update before it answers (the update must be "
                 "answered within 4 s); sessions grown across the 65535-octet record limit, the crossing update also being the first online "
-                "report with a trigger (never 5xx). non-trivial = request answered 4xx")
+                "report with a trigger (never 5xx); every history of up to 3 (thorough 4) requests over {create, refused create, one-time event, update, "
+                "release, unknown reference, recharge} + random longer ones, each followed by create/update/release of the subscriber under 4 s; "
+                "loops of unknown-reference requests next to creates/updates/releases of one subscriber on the race-detector build. "
+                "non-trivial = request answered 4xx")
 
 
-PROPS["C11"] = dict(lean=["ChfVerif.Props.C11"], explore=explore_c11, gen=[gen_table("locksites", "LockSites.lean")],
+PROPS["C11"] = dict(lean=["ChfVerif.Props.C11"], explore=explore_c11, race=True, gen=[gen_table("locksites", "LockSites.lean")],
                     trusted=["gin's recovery middleware (a handler panic becomes a 500 and the process goes on) is modelled",
                              "the go/ast lock-site extractor harness/cmd/locksites.go; 'calls = 0' between Lock and the deferred unlock is syntactic",
                              "the status half is proved for the charging model's inputs only and explored for raw bodies (partial)"])
@@ -1909,7 +2078,10 @@ def _conc_scenarios(ops, impl):
                 out.append(cur)
             cur = dict(prefix=["chf reset"], batch=[], go=None, fu=None, replay=[op], bad=None)
             continue
-        if cur is None or t[1] in ("notify", "burst"):
+        if cur is None or t[1] in ("notify", "burst", "hammer"):
+            continue
+        if t[1] == "cgf":
+            cur["replay"].append(op)
             continue
         cur["replay"].append(op)
         if t[1] == "seq":
@@ -1969,11 +2141,16 @@ def _conc_check(res, ops, impl, gmp, pid):
         res.dist["in-flight=%d" % k] += 1
         res.dist["GOMAXPROCS=%d" % gmp] += 1
         go = sc["go"]
+        if go == "skipped":
+            res.dist["skipped-after-deadlock"] += 1
+            res.evaluations -= 1
+            continue
         if sc["bad"] or go in ("crash", "panic") or not go.startswith("done="):
             res.violation("oracle", "%s: " % pid + "crash while requests were in flight (%s)" % (sc["bad"] or go)[:100], sc["replay"] + ["# impl: " + go[:300]])
             continue
         if go.startswith("done=0"):
-            res.violation("oracle", "%s: " % pid + "%d concurrent requests did not all return within 20 s (deadlock)" % k, sc["replay"] + ["# impl: " + go])
+            res.violation("oracle", "%s: " % pid + ("%d concurrent requests did not all return within 20 s (deadlock)" % k if k > 1 else
+                                                     "a request (nothing else in flight) did not return within 20 s (deadlock)"), sc["replay"] + ["# impl: " + go])
             continue
         gt = go.split(" ")
         rs = gt[2][2:].split(";")
@@ -2041,23 +2218,30 @@ def explore_c09(ctx, res, replay_ops=None):
     procs = [4, 16] if ctx.tier == "quick" else [1, 2, 4, 8, 16]
     for gmp in procs:
         impl = core.harness_run(h, "conc", ops, env_extra={"GOMAXPROCS": str(gmp), "GORACE": "halt_on_error=0"})
-        se = core.LAST_STDERR.get("conc", "")
-        if "DATA RACE" in se:
-            i = se.index("DATA RACE")
-            res.violation("oracle", "C09: the Go race detector reported a data race (GOMAXPROCS=%d)" % gmp,
-                          ops[:400] + ["# race report:"] + ["# " + l for l in se[max(0, i - 20):i + 3000].split("\n")])
-        if "fatal error" in se or "concurrent map" in se:
-            i = se.find("fatal error")
-            res.violation("oracle", "C09: the process crashed (GOMAXPROCS=%d): %s" % (gmp, se[i:i + 200].replace("\n", " ")),
-                          ops[:400] + ["# " + l for l in se[max(0, i):i + 2000].split("\n")])
+        _race_scan(res, "C09", ops, gmp, "batches and loops of concurrent requests")
         _conc_extra(res, ops, impl, "C09")
+        _hammer_check(res, ops, impl, "C09")
         _conc_check(res, ops, impl, gmp, "C09")
+    # CDR transfer to the billing domain enabled (cgf): requests while the FTP control connection is up, after the billing domain dropped
+    # it, while it is unreachable - one request at a time under the batch deadline; on the build without the race detector
+    if replay_ops is None:
+        cops = core.harness_gen(ctx.harness, "conc", ctx.seed, 0, ctx.tier, ("-mode", "cgf"))
+        cimpl = core.harness_run(ctx.harness, "conc", cops, env_extra={"GOMAXPROCS": "4"})
+        _race_scan(res, "C09", cops, 4, "CDR transfer to the billing domain enabled")
+        for op, im in zip(cops, cimpl):
+            if op.startswith("conc cgf ") and not im.startswith("ok"):
+                res.violation("oracle", "C09: the CDR-transfer scenario could not be set up (%s)" % im, [op, "# impl: " + im], found_input=False)
+            elif op.startswith("conc cgf "):
+                res.dist["cgf:" + op.split()[2]] += 1
+        _conc_check(res, cops, cimpl, 4, "C09")
     res.rule = ("batches of 2-5 (thorough: up to 16) requests released together through the real router, built with the Go race detector, under "
                 "GOMAXPROCS %s: k updates of one session; updates of two sessions + a release + a recharge notification of one subscriber; k creates "
                 "of the same new SUPI; creates and updates of different subscribers. All must return within 20 s; no race report, no fatal error; "
                 "for k <= 5 every permutation of the batch is replayed through the Lean charging model and one of them must reproduce every "
                 "response and the quiescent state exactly (record numbering compared up to order); every session acknowledged in the batch "
-                "is then updated and released; for larger batches: exactly-once recording of the accepted containers" % procs)
+                "is then updated and released; for larger batches: exactly-once recording of the accepted containers; batches with one-time events; loops "
+                "(hammer) of one-time events / refused creates / unknown-reference requests next to creates, updates and releases of one subscriber; "
+                "CDR transfer to the billing domain enabled (FTP responder up / dropped / unreachable), one request at a time" % procs)
 
 
 PROPS["C09"] = dict(lean=["ChfVerif.Props.C09"], explore=explore_c09, race=True, gen=[gen_table("locksites", "LockSites.lean")],
